@@ -124,6 +124,13 @@ fn main() {
         }
     }
 
+    unsafe {
+        // a ctrl-C typed while the shell itself is at work (a builtin that
+        // prints, the moment between two commands) is not meant to end the
+        // shell; the line editor has its own handling while it reads
+        libc::signal(libc::SIGINT, libc::SIG_IGN);
+    }
+
     let sig_handler_enabled = tools::is_signal_handler_enabled();
     if sig_handler_enabled {
         signals::setup_sigchld_handler();
